@@ -2,6 +2,7 @@
 package c07
 
 import (
+	"io"
 	"bytes"
 	"fmt"
 	"math"
@@ -29,6 +30,15 @@ func TestReplay(t *testing.T) { P.Replay(t) }
 type Case struct {
 	Tok  tok.Tok  `json:"tok"`
 	Next *tok.Tok `json:"next,omitempty"` // a second token encoded BEFORE the first one's outputs are decoded
+	// Pre: encode attempts with keys that are not the issuer's (another algorithm, or the same algorithm and another
+	// key), made on the token object BEFORE it is sealed with the right one. They fail; the seal that follows is
+	// still the issuer's seal of that token.
+	Pre []PreAttempt `json:"pre,omitempty"`
+}
+
+type PreAttempt struct {
+	Key tok.KeyRef `json:"key"`
+	API int        `json:"api"` // 0 ToSealed, 1 ToDagCbor, 2 ToDagJson, 3 ToSealedWriter
 }
 
 func hasIntegralFloat(t tok.Tok) bool {
@@ -159,6 +169,31 @@ func run(c *h.Ctx, cs Case) {
 	}
 	expectFromDescriptor(c, d, v0)
 	tcls := timeClass(d)
+	for _, pa := range cs.Pre {
+		if pa.Key == d.Issuer() {
+			continue
+		}
+		wrong := pa.Key.Key().Priv
+		var perr error
+		if pn, pv, _ := h.Try(func() {
+			switch pa.API % 4 {
+			case 0:
+				_, _, perr = tk.ToSealed(wrong)
+			case 1:
+				_, perr = tk.ToDagCbor(wrong)
+			case 2:
+				_, perr = tk.ToDagJson(wrong)
+			default:
+				_, perr = tk.ToSealedWriter(io.Discard, wrong)
+			}
+		}); pn {
+			c.Fail("C07/seal-panics/foreign-key", "encoding with a key that is not the issuer's panicked: %v", pv)
+			return
+		}
+		if perr != nil {
+			c.P.Class("history:failed-attempt-with-" + map[bool]string{true: "same", false: "other"}[pa.Key.Alg == alg] + "-algorithm-first")
+		}
+	}
 	var sealed []byte
 	if pn, pv, _ := h.Try(func() { sealed, _, err = tk.ToSealed(priv) }); pn {
 		c.Fail("C07/seal-panics/"+string(alg), "ToSealed panicked: %v", pv)
@@ -294,6 +329,13 @@ func draw(t *rapid.T) Case {
 		small := tok.GenCfg{Algs: []keys.Alg{keys.Ed25519}, NoTopNull: true, OnlyFuture: true, Kinds: cs.Tok.Kind(), Values: val.Cfg{Depth: 1, MaxLen: 2, SafeInts: true, NoFloat: true}}
 		n := tok.Gen(t, small)
 		cs.Next = &n
+	}
+	if rapid.IntRange(0, 3).Draw(t, "pre") == 2 {
+		n := rapid.IntRange(1, 3).Draw(t, "pre_n")
+		for i := 0; i < n; i++ {
+			a := rapid.SampledFrom([]keys.Alg{keys.Ed25519, keys.Secp256k1, keys.P256, keys.P384, keys.P521, keys.RSA, cs.Tok.Issuer().Alg, cs.Tok.Issuer().Alg}).Draw(t, "pre_alg")
+			cs.Pre = append(cs.Pre, PreAttempt{Key: tok.KeyRef{Alg: a, Idx: rapid.IntRange(0, 2).Draw(t, "pre_idx")}, API: rapid.IntRange(0, 3).Draw(t, "pre_api")})
+		}
 	}
 	return cs
 }
